@@ -217,7 +217,23 @@ def main(argv: list[str]) -> int:
     if not str(Path(pyoak.__file__).resolve()).startswith(str(REPO.resolve())):
         print(f"pyoak imported from {pyoak.__file__}, expected under {REPO}")
         return 2
-    mod = importlib.import_module(f"props.{prop.lower()}")
+    try:
+        mod = importlib.import_module(f"props.{prop.lower()}")
+    except (ImportError, AttributeError) as e:
+        # the property module (or a zoo module it loads) could not even be set up against this tree: a public or internal
+        # name it relies on is gone / node classes of the zoo are refused.  Never happens on the unchanged tree.  The
+        # correspondence cannot run, the property is no longer shown to hold: a broken tie without a failing input.
+        rdir = VERIF / "replays"
+        rdir.mkdir(exist_ok=True)
+        name = f"{prop}-tie-{seed}.json"
+        (rdir / name).write_text(json.dumps({
+            "property": prop, "tier": tier, "seed": seed,
+            "broken": [f"the correspondence harness of {prop} cannot be loaded against this tree: {type(e).__name__}: {e}",
+                       traceback.format_exc()[-1500:]],
+            "note": "no failing input could be searched for; the property is no longer shown to hold"}, indent=1))
+        print(f"VIOLATION property={prop} replay=replays/{name} no-failing-input-found")
+        print(f"{prop} {tier} seed={seed}: 0 cases, harness not loadable, 1 violation(s)")
+        return 1
     work = VERIF / ".work" / f"{prop}-{os.getpid()}"
     work.mkdir(parents=True, exist_ok=True)
     budget = getattr(mod, "BUDGET", {"quick": 240, "thorough": 2400})[tier]
